@@ -189,11 +189,17 @@ func c20CtrlBody(st *c20Ctrl, startAt int64, ap [2]string, epochs int, attestDur
 	lastEpoch := phase0.Epoch(c03Epoch0)
 	end := phase0.Slot((uint64(c03Epoch0) + uint64(epochs)) * c03SPE)
 	// the first slot of every epoch after the first may be empty (no block, hence no head event in it)
-	skipFirst := mc.Choose(2) == 1
+	// ... or the beacon node delivers no head event at all during the third epoch of the run (an outage)
+	headMode := mc.Choose(3)
+	skipFirst := headMode == 1
+	stalled := phase0.Epoch(c03Epoch0 + 2)
 	for s := w.slotAt(mc.Now()); s < end; s++ {
 		// a head event one second into every slot, as a beacon node delivers
 		at := w.slotStart(s) + int64(time.Second)
 		if skipFirst && uint64(s)%c03SPE == 0 && int(s)-c03Epoch0*c03SPE != reorgSlot {
+			at = -1
+		}
+		if headMode == 2 && phase0.Epoch(uint64(s)/c03SPE) == stalled && int(s)-c03Epoch0*c03SPE != reorgSlot {
 			at = -1
 		}
 		if at > mc.Now() {
@@ -978,6 +984,23 @@ func c20Units(tier string) []hx.Unit {
 			return c20LeakCheck("relay-unblind", ver+" relays=["+strings.Join(rel, " ")+"]", e2.done, r)
 		}
 		units = append(units, u)
+		// the proposal job as the scheduler runs it: with the application's context, which does not end.  Every relay
+		// answers (a block, errors, an empty answer); when none hands a block over the job must still come to an end
+		e4 := &c05Env{}
+		u = hx.Unit{Name: "C20/leak/unblind-job-context/" + ver, Cfg: mc.Config{Deviation: true, Horizon: int64(60 * time.Second)}}
+		u.Bound = 0
+		if tier == "thorough" {
+			u.Bound = 1
+		}
+		u.Body = func() { c20UnblindJobBody(e4, ver) }
+		u.Check = func(r *mc.Result) mc.Verdict {
+			var rel []string
+			for _, x := range e4.relays {
+				rel = append(rel, fmt.Sprintf("%s@%d", x.beh, x.lat/int64(time.Second)))
+			}
+			return c20LeakCheck("unblind-job", ver+" relays=["+strings.Join(rel, " ")+"] (context never ends)", e4.done, r)
+		}
+		units = append(units, u)
 		// all three relays hand the block over at the same instant: every schedule with two deviations
 		e3 := &c05Env{}
 		u = hx.Unit{Name: "C20/leak/relay-unblind-all-answer/" + ver, Cfg: mc.Config{Deviation: true, Horizon: int64(60 * time.Second)}, Bound: 2}
@@ -1007,6 +1030,36 @@ func c20Units(tier string) []hx.Unit {
 				desc = append(desc, fmt.Sprintf("%s:%d%+d@%d", rl.defect, rl.value, rl.step, c09Lats[rl.lat]))
 			}
 			return c20LeakCheck("deadline-auction", "relays=["+strings.Join(desc, " ")+"]", e.done, r)
+		}
+		units = append(units, u)
+	}
+	// leak: the one-shot auction with a relay that never answers, called (as the proposal job calls it) with a context
+	// that does not end: the request to the silent relay must have ended a minute after the auction returned
+	{
+		e := &c09Env{}
+		st := c09Strats()[0]
+		u := hx.Unit{Name: "C20/leak/best-auction/silent-relay", Cfg: mc.Config{Deviation: true, Horizon: int64(300 * time.Second)}, Bound: 0}
+		u.Body = func() {
+			c09Init()
+			*e = c09Env{cfgKind: "none", given: make([][]c09Given, 2)}
+			util.VerifResetBuilderClients()
+			e.relays = append(e.relays, &c09Relay{idx: 0, env: e, value: 10, bldr: 'Y', hdr: 1, defect: "none", lat: mc.Choose(2)}, &c09Relay{idx: 1, env: e, value: 12, bldr: 'Y', hdr: 2, defect: "none", lat: 3})
+			for _, r := range e.relays {
+				util.VerifSetBuilderClient(r.Address(), r)
+			}
+			mc.Sleep(int64(time.Duration(c09Slot)*12*time.Second) - mc.Now())
+			svc := st.mk()
+			e.res, e.err = svc.BuilderBid(context.Background(), c09Slot, phase0.Hash32{9}, phase0.BLSPubKey{1}, c09ProposerConfig(e), c09BuilderConfigs("none"))
+			e.done = true
+			mc.Sleep(int64(60 * time.Second))
+		}
+		u.Check = func(r *mc.Result) mc.Verdict {
+			v := c20LeakCheck("best-auction", "relays=[none@0/1 none@never]", e.done, r)
+			if v.Violation == "" && e.silentPending > 0 {
+				v.Violation = fmt.Sprintf("best-auction with a relay that never answers: a minute after the auction returned %d request(s) to the silent relay are still under way (their context has not ended)", e.silentPending)
+				v.Key = "C20/leak/best-auction/request-never-ended"
+			}
+			return v
 		}
 		units = append(units, u)
 	}
@@ -1082,6 +1135,34 @@ func c20UnblindBody(e *c05Env, ver string) {
 	e.done = true
 	cancel()
 	mc.Sleep(int64(20 * time.Second))
+}
+
+// c20UnblindJobBody: Propose with a context that is never cancelled (the scheduler hands its jobs the application's
+// context); relays that never answer are left out (the HTTP client's own timeout ends those).
+func c20UnblindJobBody(e *c05Env, ver string) {
+	v := spec.DataVersionBellatrix
+	if ver == "deneb" {
+		v = spec.DataVersionDeneb
+	}
+	*e = c05Env{version: v, blinded: true, auction: "winner2", acct: newAccount("W", "proposer", 7), graffiti: "none", sign: "ok", submit: "ok"}
+	behs := []string{"full", "err3", "nildata", "err503", "status400"}
+	for i := 0; i < 3; i++ {
+		r := &c05Relay{idx: i, env: e, beh: behs[mc.Choose(len(behs))]}
+		if r.beh == "full" || r.beh == "nildata" {
+			r.lat = []int64{0, int64(time.Second)}[mc.Choose(2)]
+		}
+		e.relays = append(e.relays, r)
+	}
+	svc := c05Build(e)
+	duty := beaconblockproposer.NewDuty(c05Slot, 7)
+	ctx := context.Background()
+	mc.Go(func() {
+		if err := svc.Prepare(ctx, duty); err == nil {
+			svc.Propose(ctx, duty)
+		}
+		e.done = true
+	})
+	mc.Sleep(int64(40 * time.Second))
 }
 
 // c20Validators answers the block relay's question which validator proposes.
@@ -1185,7 +1266,7 @@ func init() {
 	hx.Register(&hx.Prop{
 		ID:    "C20",
 		Title: "Vouch's memory and goroutines stay bounded, and shutdown accounting is exact",
-		Rule: "ctrl: the real controller (fast track off / on) + scheduler run for 4 (thorough 6) epochs from 2 start instants with 6 attester duty-table pairs (dense / sparse, reorg that drops or moves duties) and an attester that returns at once, plus 5 pairs with an attester that takes 14 s (still at work at the next slot's head event), x position (any of 8 slots, 1 s or 6 s into it), kind of the reorg event, a head event every slot (or every slot but the first of each epoch), the default schedule; thorough: plus two-epoch runs for all reorg pairs under every schedule with one deviation while the reorg event is handled; at +2 s and at the end of every slot: job names, pending-attestation marks (exactly the slots with an attestation job listed or attestations in flight), subscription-information epochs inside a fixed window; " +
+		Rule: "ctrl: the real controller (fast track off / on) + scheduler run for 4 (thorough 6) epochs from 2 start instants with 6 attester duty-table pairs (dense / sparse, reorg that drops or moves duties) and an attester that returns at once, plus 5 pairs with an attester that takes 14 s (still at work at the next slot's head event), x position (any of 8 slots, 1 s or 6 s into it), kind of the reorg event, a head event every slot (or every slot but the first of each epoch, or none during the third epoch), the default schedule; thorough: plus two-epoch runs for all reorg pairs under every schedule with one deviation while the reorg event is handled; at +2 s and at the end of every slot: job names, pending-attestation marks (exactly the slots with an attestation job listed or attestations in flight), subscription-information epochs inside a fixed window; " +
 			"attested: the real attester over every 6-epoch (thorough 8) pattern of {attests, data fetch fails, no duty}; sync: the real sync messenger + aggregator over every 8-slot (thorough 12) pattern of {selected as aggregator, not selected, beacon node gives no head root}; a slot that records a root leaves no root outside the window and at most 4 are ever retained; the messenger's per-slot data for inclusion checks over every sequence of 3 (thorough 4) stretches out of {10 / 40 normal slots, 40 / 120 / 260 slots without on-time head event}: after a handled head event at most 100 slots are held; " +
 			"leak: each `first` / best / majority strategy with three nodes x {answer at 0 s / 2 s, never, late} x {valid, error}, unblinding with three relays, the deadline auction with three relays; after all timeouts no goroutine started by vouch may be blocked; deviation-bounded schedules; " +
 			"ctrl-due-job: the controller's scheduling of an epoch run six seconds into a slot that has a duty (the job is due at once), under every schedule with one preemption (thorough two) at that instant; non-trivial = a reorg happened / pending marks were observed / any attested, sync or leak case",
